@@ -51,7 +51,8 @@ SPEC = {
              "3x3 over four values); every ordered triplet sequence of length <= 3 (thorough: 4) over a 2x2 grid with values "
              "{1,-1,2}; ordered pairs of the 105 blocks of shape <= 2x2 over {absent,1,-1} (quick: every 8th pair, thorough: "
              "all); identity/zeros for n <= 5. Seeded random part: matrices up to 40x40 with stored zeros and empty "
-             "rows/columns, 2x2 block layouts, R x C block grids with R,C <= 3 (one in four shape-inconsistent, plus the "
+             "rows/columns, large shapes (40-120 rows x 2-6 columns with runs of 33-100-entry columns, their transposes, squares of order 40-60: full "
+             "bundle, raw encodings in presorted / reversed / shuffled / duplicated column order, concatenations of large blocks), 2x2 block layouts, R x C block grids with R,C <= 3 (one in four shape-inconsistent, plus the "
              "degenerate layouts), triplet lists, raw encodings (canonical, unsorted with duplicates, malformed colptr / "
              "lengths / row indices). Each single-matrix bundle runs every operation named in the property on that matrix "
              "(incl. symv, quad_form and col_norms_sym on its upper triangle, set_entry on absent and stored positions with "
